@@ -42,7 +42,10 @@ POOLS = {
 }
 MASK_DTYPES = ["bool", "int64", "float64", "uint8", "int32", "float32"]
 TRANSFORMS = [[1, 0, 0, 0, 1, 0], [1.2, -0.3, 0.2, 1.4, 0.7, 0.1], [30.0, 0.0, 500000.0, 0.0, -30.0, 4000000.0],
-              [0, 1, 0, 1, 0, 0], [2.0, 0.0, -5.0, 0.0, 0.5, 7.0], [0.1, 0.0, 0.0, 0.0, 0.1, 0.0], [-1, 0, 10, 0, -1, 10]]
+              [0, 1, 0, 1, 0, 0], [2.0, 0.0, -5.0, 0.0, 0.5, 7.0], [0.1, 0.0, 0.0, 0.0, 0.1, 0.0], [-1, 0, 10, 0, -1, 10],
+              # structured special cases: pure translations (unit scale), single-axis offsets, half-pixel shift, flips, quarter turn with offset
+              [1, 0, 256, 0, 1, 512], [1.0, 0.0, 0.5, 0.0, 1.0, 0.5], [1, 0, 7, 0, 1, 0], [1, 0, 0, 0, 1, -3], [1, 0, 0, 0, -1, 0],
+              [-1, 0, 0, 0, 1, 0], [0, -1, 4, 1, 0, 2], [1, 0, 0, 0, 1, 1e6], [3, 0, 0, 0, 1, 0], [1, 0, 0, 0, 2, 5], [1, 1, 0, 0, 1, 0]]
 
 
 # ---------------------------------------------------------------- watchdog
